@@ -38,12 +38,15 @@ CONFIG = dict(
 
 def native_replay(v, path):
     ob = v["obligation"]
+    # fixed scenarios on real sockets: confirm, never overrule
     if "close" in ob or "reused" in ob:
         test = "c19_native_close_reuse"
-    else:
+    elif "setsockopt" in ob or ".safety[" in ob or ".no_panic[" in ob:
         test = "c19_native_set_twice"
+    else:
+        return None
     rc, out = native.run_test("C19", "native/c19_replay.rs", "core/src/syscall/unix/mod.rs", test)
-    d = native.verdict(rc, out, dict(test=test))
+    d = native.verdict(rc, out, dict(test=test, decisive=False, scenario="fixed: " + test))
     if d["reproduced"] is None and "VERIF-REPLAY-ABORTED" in out and re.search(r"assertion failed: (RECV|SEND)_TIME_LIMIT\s*\.insert", out):
         d["reproduced"] = True
         d["lines"].append("child stderr carries the crate's own assertion: " + re.search(r"assertion failed: (RECV|SEND)_TIME_LIMIT\s*\.insert[^\n]*", out).group(0))
